@@ -50,7 +50,7 @@ const topEvery = 6      // one type in topEvery is a top-level slice / map targe
 const maxVariants = 128 // fault variants executed per case
 
 func (check) Rule() string {
-	return "one case = (type, plan). Type: top-level struct of 2-6 fields, depth <= 3, fields of kind int int8 int32 int64 uint uint8 uint32 uint64 float32 float64 string time.Duration, the library leaves Port / Level / DefLevel / DefBad (Validate with value or pointer receiver, InitDefaults giving a valid or an invalid value) and the library leaves UNum / ULevel / UPort / UStr that receive their value through go-ucfg's Unpacker / IntUnpacker / UintUnpacker / StringUnpacker interface (ULevel, UPort also with Validate), DefNaN (a float64 whose InitDefaults sets NaN), pointers to those (one in six through a second pointer, **T; one pointer field in ten is a *regexp.Regexp with required / nonzero), slices / arrays / maps of those (one in four to six held behind a pointer: *[]T, *[N]T, *map[string]T, also *[]struct), structs whose only field is an inline map (with or without required / nonzero; held by value, by pointer or as element, never inline themselves), structs by value, by pointer, inline, in slices, arrays and maps (by value and by pointer), interface{} fields (holding a number, a string or a pointer to struct), ignored fields, and the library structs WithDefaults / WithBadDefaults (InitDefaults), Range / Pair (cross-field Validate, value / pointer receiver), URange (ConfigUnpacker + cross-field Validate), UTagged (ConfigUnpacker whose field carries validator tags), Node (a struct with a pointer to its own type: one pre-filled Node in three has its Next chain closed into a ring of 1-3 valid nodes, i.e. a CYCLIC pre-filled default), Hidden (unexported + ignored field); one map of scalars in five is DefPorts / DefPortsBad and one map of structs in five DefLimits / DefLimitsBad - map TYPES whose InitDefaults inserts the entry \"dflt\" (valid resp. breaking the element's Validate / min tag) whenever the map's holder is unpacked, into a nil, empty or pre-filled target, with no, an empty or a set configuration naming other keys and / or \"dflt\" itself; one map of scalars in five has the key type Key (a string with Validate); one interface{} field in three sits behind a pointer (*interface{}, holding a number, a string, a pointer to struct, half of the time a pointer to Range / Pair / URange); pre-filled numbers in interface{} fields sit behind a pointer one time in three (iface(*int)); collision-free `config` names and 0-2 validators per field among required, nonzero, positive, min=N, max=N (durations: 5s or 5) that apply to the kind (one min / max in eight of a 64 bit integer field is a bound at the edge of the kind: 2^63-1, 2^63, 2^64-2, -2^63+1, 2^63-2); every second type declares, field by field, a second independent set of validators under the struct tag `" + altTag + "` next to `validate` (WithDefaults / WithBadDefaults always do); one type per " + strconv.Itoa(typeShare) + " consecutive cases. Half of the slice fields and one in eight struct / pointer-to-struct / map-of-struct fields carry a merge option in the config tag (append, prepend, replace, merge; inherited by the fields below); one slice field in five is the library type Small ([]int with its own Validate). One type in " + strconv.Itoa(topEvery) + " is a slice or map that is ITSELF the Unpack target (Unpack(&[]T{...}) / Unpack(&map[string]T{...}), configuration a list / object, no variables). Validator tag name: Unpack is called without ValidatorTag, with ValidatorTag(validate) or with ValidatorTag(" + altTag + ") (half of the cases of a two-tag type, one in eight of the others, where then no tag validator is in force at all); values, faults and oracle follow the validators declared under the name in force. In half of the cases of a two-tag type (a quarter of the others) the same type and input are first unpacked under the OTHER tag name (a sequence of two Unpack calls with different options in one process); of that first call only panics and accepted numbers outside min / max / positive or rejected by Validate() are judged. Plan: one plan in three passes AppendValues / PrependValues / ReplaceValues / ReplaceArrValues to Unpack; every position independently takes its value from the configuration (spelled as int/int64/uint64/float/string, durations as text or seconds, 1 in 6 through ${v.xN} under PathSep(.)+VarExp), from the pre-filled target, from InitDefaults, or stays zero/nil; slices mix configured, merged and untouched pre-filled elements (index by index without merge mode; separate configured and pre-filled elements under append / prepend / replace), maps mix configured, pre-filled and merged entries (under the replace policy: configured entries, pre-filled entries that are dropped as soon as one entry is configured, and pre-filled entries of non-scalar type under the SAME key as a configured one, which are dropped instead of merged); a slice or map without configured elements is absent, null, or present as an empty list / object, over a nil or a filled pre-fill (also shorter lists than the pre-fill). One configured scalar element / entry in ten is an explicit null (only where the zero value it becomes is valid, nothing pre-filled sits at the position and the collection field has no validators). Valid values are interior or exactly on a bound (bounds are inclusive); float32 / float64 / DefNaN positions also take NaN, +-Inf, -0 and subnormal numbers wherever the validators in force admit them (NaN: only without min / max / positive; -0: not under nonzero / required), as Go float, as text (NaN nan +Inf inf -Inf -infinity -0 5e-324) or through a variable, from the configuration, as pre-filled default or from InitDefaults; one min / max / positive fault in five on a float position is NaN, one nonzero fault in two is -0; one valid number in eight and one min / max / positive fault in three takes a value at the edge of the kind's range (MinInt / MaxInt of the width, +-2^7 2^8 2^31 2^32 2^53 2^63 and their neighbours, MaxUint64, +-1e18 +-1e300 1e-300, +-1e30 for float32, +-2562047h), spelled as int64 / uint64 / float / decimal string or through a variable; values against an edge bound are drawn from the neighbours of the bound and compared exactly. Base plan: Unpack must return nil and the oracle walk must be clean. Then every (position, validator, source) fault the plan admits (<= " + strconv.Itoa(maxVariants) + " per case) is injected alone: bad value from the configuration / through a variable / as pre-filled default / by leaving the field absent / by InitDefaults / as explicit null / as a pre-filled element or entry that survives the merge while the configuration gives the collection as EMPTY list or object (default+empty-config) / a `required` or `nonzero` collection given as empty list or object over a nil, an empty non-nil or (replace) a dropped pre-fill / one element of a Small too big for its Validate / an explicit null as element or entry of a type whose Validate rejects the zero value (config-null) / a non-nil EMPTY pre-filled slice or map under required / nonzero with the setting absent (pre-empty; for pointer-to-collection fields: a pointer to an empty collection) / a pre-filled pointer (also **T, iface(*T), *interface{}) to a ZERO number, an empty string or empty regular expression under required with the setting absent or an explicit null (default, default+config-null) / zero or empty from the configuration under required / the entry of a map type's InitDefaults left unrepaired by the configuration (initdefaults at the entry or at its tagged field, the rest of the map as drawn) / a configured or pre-filled entry under a key the key type's Validate rejects (config-key, default-key) / any value of a *time.Duration under a min / max in seconds no duration reaches (min=1e10, min=inf, max=-1e10), while max=1e10, max=inf, max=9223372036.854775807, min=-1e10 restrict nothing; Unpack must fail and name the field. A fault variant is executed only if the model of Unpack for these shapes agrees that exactly this position is invalid. Non-trivial = the type has at least one validator-bearing position; distinct = distinct (type, sources of all leaves, fault). Besides, every case runs " + strconv.Itoa(graphRounds) + " pre-filled GRAPHS of hand-written recursive types (alias.go: 1-3 components embedding a base as first field that points to its owner, boxes with a named first field pointing up, 3-cell arrays whose cells point to the array, structs whose first field is a pointer to the struct; owner / up / grid / me pointers to the own value, another one or nil), held by the target as pointer to the FIRST field / element (one address, two values), to a later element, to a free-standing struct or to the enclosing value, in pointer fields, **T, slice / array elements, map entries and interface{} fields whose setting is absent, null, a shorter list, an empty object or an object naming another key, plus a struct whose InitDefaults builds such a component; first the valid graph (Unpack must return nil, result clean), then in 3 of 4 probes one place made invalid under the tag in force (tag validators and Validate(), mostly outside the first field and reached below two pointers sharing an address; one in eight anywhere, also out of reach: then nil is demanded); non-trivial = a fault run, distinct = distinct (graph, configuration, fault)."
+	return "one case = (type, plan). Type: top-level struct of 2-6 fields, depth <= 3, fields of kind int int8 int32 int64 uint uint8 uint32 uint64 float32 float64 string time.Duration, the library leaves Port / Level / DefLevel / DefBad (Validate with value or pointer receiver, InitDefaults giving a valid or an invalid value) and the library leaves UNum / ULevel / UPort / UStr that receive their value through go-ucfg's Unpacker / IntUnpacker / UintUnpacker / StringUnpacker interface (ULevel, UPort also with Validate), DefNaN (a float64 whose InitDefaults sets NaN), pointers to those (one in six through a second pointer, **T; one pointer field in ten is a *regexp.Regexp with required / nonzero), slices / arrays / maps of those (one in four to six held behind a pointer: *[]T, *[N]T, *map[string]T, also *[]struct), structs whose only field is an inline map (with or without required / nonzero; held by value, by pointer or as element, never inline themselves), structs by value, by pointer, inline, in slices, arrays and maps (by value and by pointer), interface{} fields (holding a number, a string or a pointer to struct), ignored fields, and the library structs WithDefaults / WithBadDefaults (InitDefaults), Range / Pair (cross-field Validate, value / pointer receiver), URange (ConfigUnpacker + cross-field Validate), UTagged (ConfigUnpacker whose field carries validator tags), Node (a struct with a pointer to its own type: one pre-filled Node in three has its Next chain closed into a ring of 1-3 valid nodes, i.e. a CYCLIC pre-filled default), Hidden (unexported + ignored field); one map of scalars in five is DefPorts / DefPortsBad and one map of structs in five DefLimits / DefLimitsBad - map TYPES whose InitDefaults inserts the entry \"dflt\" (valid resp. breaking the element's Validate / min tag) whenever the map's holder is unpacked, into a nil, empty or pre-filled target, with no, an empty or a set configuration naming other keys and / or \"dflt\" itself; one map of scalars in five has the key type Key (a string with Validate); one interface{} field in three sits behind a pointer (*interface{}, holding a number, a string, a pointer to struct, half of the time a pointer to Range / Pair / URange); pre-filled numbers in interface{} fields sit behind a pointer one time in three (iface(*int)); collision-free `config` names and 0-2 validators per field among required, nonzero, positive, min=N, max=N (durations: 5s or 5) that apply to the kind (one min / max in eight of a 64 bit integer field is a bound at the edge of the kind: 2^63-1, 2^63, 2^64-2, -2^63+1, 2^63-2); every second type declares, field by field, a second independent set of validators under the struct tag `" + altTag + "` next to `validate` (WithDefaults / WithBadDefaults always do); one type per " + strconv.Itoa(typeShare) + " consecutive cases. Half of the slice fields and one in eight struct / pointer-to-struct / map-of-struct fields carry a merge option in the config tag (append, prepend, replace, merge; inherited by the fields below); one slice field in five is the library type Small ([]int with its own Validate). One type in " + strconv.Itoa(topEvery) + " is a slice or map that is ITSELF the Unpack target (Unpack(&[]T{...}) / Unpack(&map[string]T{...}), configuration a list / object, no variables). Validator tag name: Unpack is called without ValidatorTag, with ValidatorTag(validate) or with ValidatorTag(" + altTag + ") (half of the cases of a two-tag type, one in eight of the others, where then no tag validator is in force at all); values, faults and oracle follow the validators declared under the name in force. In half of the cases of a two-tag type (a quarter of the others) the same type and input are first unpacked under the OTHER tag name (a sequence of two Unpack calls with different options in one process); of that first call only panics and accepted numbers outside min / max / positive or rejected by Validate() are judged. Plan: one plan in three passes AppendValues / PrependValues / ReplaceValues / ReplaceArrValues to Unpack; every position independently takes its value from the configuration (spelled as int/int64/uint64/float/string, durations as text or seconds, 1 in 6 through ${v.xN} under PathSep(.)+VarExp), from the pre-filled target, from InitDefaults, or stays zero/nil; slices mix configured, merged and untouched pre-filled elements (index by index without merge mode; separate configured and pre-filled elements under append / prepend / replace), maps mix configured, pre-filled and merged entries (under the replace policy: configured entries, pre-filled entries that are dropped as soon as one entry is configured, and pre-filled entries of non-scalar type under the SAME key as a configured one, which are dropped instead of merged); a slice or map without configured elements is absent, null, or present as an empty list / object, over a nil or a filled pre-fill (also shorter lists than the pre-fill). One configured scalar element / entry in ten is an explicit null (only where the zero value it becomes is valid, nothing pre-filled sits at the position and the collection field has no validators). Valid values are interior or exactly on a bound (bounds are inclusive); float32 / float64 / DefNaN positions also take NaN, +-Inf, -0 and subnormal numbers wherever the validators in force admit them (NaN: only without min / max / positive; -0: not under nonzero / required), as Go float, as text (NaN nan +Inf inf -Inf -infinity -0 5e-324) or through a variable, from the configuration, as pre-filled default or from InitDefaults; one min / max / positive fault in five on a float position is NaN, one nonzero fault in two is -0; one valid number in eight and one min / max / positive fault in three takes a value at the edge of the kind's range (MinInt / MaxInt of the width, +-2^7 2^8 2^31 2^32 2^53 2^63 and their neighbours, MaxUint64, +-1e18 +-1e300 1e-300, +-1e30 for float32, +-2562047h), spelled as int64 / uint64 / float / decimal string or through a variable; values against an edge bound are drawn from the neighbours of the bound and compared exactly. Base plan: Unpack must return nil and the oracle walk must be clean. Then every (position, validator, source) fault the plan admits (<= " + strconv.Itoa(maxVariants) + " per case) is injected alone: bad value from the configuration / through a variable / as pre-filled default / by leaving the field absent / by InitDefaults / as explicit null / as a pre-filled element or entry that survives the merge while the configuration gives the collection as EMPTY list or object (default+empty-config) / a `required` or `nonzero` collection given as empty list or object over a nil, an empty non-nil or (replace) a dropped pre-fill / one element of a Small too big for its Validate / an explicit null as element or entry of a type whose Validate rejects the zero value (config-null) / a non-nil EMPTY pre-filled slice or map under required / nonzero with the setting absent (pre-empty; for pointer-to-collection fields: a pointer to an empty collection) / a pre-filled pointer (also **T, iface(*T), *interface{}) to a ZERO number, an empty string or empty regular expression under required with the setting absent or an explicit null (default, default+config-null) / zero or empty from the configuration under required / the entry of a map type's InitDefaults left unrepaired by the configuration (initdefaults at the entry or at its tagged field, the rest of the map as drawn) / a configured or pre-filled entry under a key the key type's Validate rejects (config-key, default-key) / any value of a *time.Duration under a min / max in seconds no duration reaches (min=1e10, min=inf, max=-1e10), while max=1e10, max=inf, max=9223372036.854775807, min=-1e10 restrict nothing; Unpack must fail and name the field. A fault variant is executed only if the model of Unpack for these shapes agrees that exactly this position is invalid. Non-trivial = the type has at least one validator-bearing position; distinct = distinct (type, sources of all leaves, fault). Besides, every case runs " + strconv.Itoa(graphRounds) + " pre-filled GRAPHS of hand-written recursive types (alias.go: 1-3 components embedding a base as first field that points to its owner, boxes with a named first field pointing up, 3-cell arrays whose cells point to the array, structs whose first field is a pointer to the struct; owner / up / grid / me pointers to the own value, another one or nil), held by the target as pointer to the FIRST field / element (one address, two values), to a later element, to a free-standing struct or to the enclosing value, in pointer fields, **T, slice / array elements, map entries and interface{} fields whose setting is absent, null, a shorter list, an empty object or an object naming another key, plus a struct whose InitDefaults builds such a component; first the valid graph (Unpack must return nil, result clean), then in 3 of 4 probes one place made invalid under the tag in force (tag validators and Validate(), mostly outside the first field and reached below two pointers sharing an address; one in eight anywhere, also out of reach: then nil is demanded); non-trivial = a fault run, distinct = distinct (graph, configuration, fault). And every case runs " + strconv.Itoa(chainRounds) + " pre-filled POINTER CHAINS probes (chain.go): a reflect.StructOf struct of 2-4 fields of type *T .. ****T (T int int64 uint8 float64 string time.Duration []int map[string]int, the struct CEnd with a min=1 field of its own, or interface{} behind 0-2 pointers holding a chain of 0-2 pointers to int / string), validators under `validate` and `" + altTag + "` drawn independently (required 6/10, nonzero 2/10, positive / min=1 / max=9 and pairs 1/10), held at the top, in a nested struct, behind *S / **S, inline, or as 1-2 pre-filled elements of []S / []*S, next to the struct CInit whose InitDefaults builds **string / ***int / **[]int chains from a pre-filled mode; every chain is pre-filled nil at level k (k = 1..number of levels, the interface and the pointers it holds count as levels) or complete with a valid / zero / empty / nil-collection end; base pass: every field in a state the oracle walk accepts, settings absent, a valid value (3/10 of the non-fault fields: the library completes the chain) or null (only where every state of the chain is valid): Unpack must return nil and the result must be clean; fault pass (4 of 5 probes): ONE field (half of the draws: nil at level >= 2) or one CInit chain put into a state the walk rejects, setting absent (or, under required, null one time in four): Unpack must fail naming the field or a setting enclosing it; non-trivial = a fault run, distinct = distinct (type, pre-fill, configuration)."
 }
 
 func (check) Assumptions() []string {
@@ -820,6 +820,11 @@ func (check) Run(seed int64, tier string, idx int, verbose bool) harness.Result 
 	// everything below are what they were
 	for round := 0; round < graphRounds; round++ {
 		graphProbe(res, seed, idx, round, verbose)
+	}
+	// sixth wave, second batch (chain.go): pre-filled pointer chains that are
+	// nil at their k-th level; own random stream as well
+	for round := 0; round < chainRounds; round++ {
+		chainProbe(res, seed, idx, round, verbose)
 	}
 	// every topEvery-th type is a slice or map that is itself the Unpack target
 	topColl := (idx/typeShare)%topEvery == topEvery-1
